@@ -156,6 +156,15 @@ pub enum Error {
         required_capabilities: Requirements,
     },
 
+    /// Attempted to perform an operation on a `target` datastore that the operation never accepts.
+    #[error("datastore '{datastore:?}' is not a valid target for rpc operation '{operation_name}'")]
+    InvalidTarget {
+        /// RPC operation name.
+        operation_name: &'static str,
+        /// Target datastore.
+        datastore: Datastore,
+    },
+
     /// Attempted to `lock` an unsupported datastore.
     #[error(
         "unsupported lock target datastore '{datastore:?}' (requires {required_capabilities})"
